@@ -62,7 +62,8 @@ RESOURCE_PATH = r"(?:[/?#]\S*)?"
 RELAXED_RESOURCE_PATH = r"(?:[/?#].*)?"
 
 SPECIAL_HOSTS_RE = re.compile(
-    r"^localhost|(\d{1,3}\.){3}\d{1,3}|[\da-f]*:[\da-f:]*$", re.I
+    r"^(?:(?:localhost|(?:\d{1,3}\.){3}\d{1,3})(?::\d*)?|[\da-f]*:[\da-f:]*)$",
+    re.I,
 )
 
 URL_RE = re.compile(r"^(?:%s)?%s$" % (PROTOCOL, URL + RESOURCE_PATH), re.I | re.UNICODE)
